@@ -549,6 +549,28 @@ def check(ctx):
     ok = any(isinstance(a, ast.Assign) and norm(a.targets[0]) == "self.dependencies" and "find_all_dependencies(owner, self.func)" in norm(a.value) and "self.params" in norm(a.value) and isinstance(a.value, ast.BinOp) and isinstance(a.value.op, ast.BitOr) for a in ast.walk(rg.node))
     ctx.check(ok, "C10.R9", f"{rg.qualname}:dependencies", rg.node.body[0], "a validator's dependencies are not the fields its body reads united with its declared parameters: it runs although one of them failed", rg, rg.node, detail="find_all_dependencies(owner, self.func) | self.params")
 
+    # ---------------- R10: dependency discovery
+    ctx.rule("C10.R10", "find_all_dependencies: a result is memoised only when it was computed with an empty recursion guard; the guard is per call path (a fresh set is passed down)", floor=3)
+    fd = model.func("apischema.validation.dependencies.find_all_dependencies")
+    pmf = parents_of(fd.node)
+    guard = fd.params[2] if len(fd.params) > 2 else None
+    ctx.require(guard is not None, "find_all_dependencies lost its recursion guard parameter")
+    stores = [n for n in ast.walk(fd.node) if isinstance(n, ast.Subscript) and isinstance(n.ctx, ast.Store) and norm(n.value) == "cache"]
+    ctx.check(bool(stores), "C10.R10", f"{fd.qualname}:memo", fd.node.body[0], "find_all_dependencies no longer memoises (performance only) - rule instance vanished", fd, fd.node, nontrivial=False)
+    for st in stores:
+        cond = norm(path_condition(fd.node, st, pmf))
+        ctx.check(f"not {guard}" in cond, "C10.R10", f"{fd.qualname}:memo-top-level", st,
+                  f"`{short(pmf.get(st), 50)}` stores a result computed under a non-empty recursion guard: the guard cuts cycles, so the set of a helper reached inside a cycle is truncated; memoised, it is inherited by every later validator using that helper (it then runs although a field it reads is invalid)",
+                  fd, st, detail=f"only under `not {guard}`")
+    recs = [c for c in ast.walk(fd.node) if isinstance(c, ast.Call) and isinstance(c.func, ast.Name) and c.func.id == fd.name]
+    for c in recs:
+        g = c.args[2] if len(c.args) > 2 else next((k.value for k in c.keywords if k.arg == guard), None)
+        fresh = isinstance(g, (ast.Set, ast.BinOp)) or (isinstance(g, ast.Call) and dotted(g.func) in ("set", "frozenset"))
+        ctx.check(g is not None and fresh and guard in norm(g) and "member" in norm(g), "C10.R10", f"{fd.qualname}:guard-per-path", c,
+                  f"`{short(c, 70)}`: the recursion guard passed down is not a fresh set extending the current one: a guard shared by the whole traversal also skips helpers reached a second time through another branch (diamond), whose dependencies are then missing", fd, c, detail="{*rec_guard, member}")
+    skip = any(isinstance(n, ast.If) and norm(n.test) == f"member in {guard}" and any(isinstance(x, ast.Continue) for x in n.body) for n in ast.walk(fd.node))
+    ctx.check(skip, "C10.R10", f"{fd.qualname}:cycle-cut", fd.node.body[0], "a member already on the call path is no longer skipped: mutual recursion between helpers does not terminate", fd, fd.node, detail="if member in rec_guard: continue")
+
 
 def fixtures(ctx):
     src = "def f(xs, i=0):\n    for i, x in enumerate(xs):\n        f(xs[i:])\n        f(xs[i + 1:])\n"
@@ -587,10 +609,11 @@ def mutants(mb):
     mb.add_text("field-validator-no-default-discard", V, "        if field is not None and discard is None:\n", "        if field is None and discard is None:\n", "C10.R9", "discard-default")
     mb.add_text("generator-errors-ignored", V, "                if errors:\n                    raise build_validation_error(errors)\n", "                if not errors:\n                    raise build_validation_error(errors)\n", "C10.R9", "generator")
     mb.add_text("dependencies-without-params", V, "        self.dependencies = find_all_dependencies(owner, self.func) | self.params\n", "        self.dependencies = find_all_dependencies(owner, self.func)\n", "C10.R9", "dependencies")
+    mb.add_text("dependencies-memoised-under-guard", "apischema/validation/dependencies.py", "    if not rec_guard:\n        # inside a recursion, the result can be truncated by the recursion guard\n        cache[func] = dependencies\n", "    cache[func] = dependencies\n", "C10.R10", "memo-top-level")
     mb.add_text("validators-i", V, "validators[i + 1 :]", "validators[i:]", "C10.R1", "validate")
     mb.add_text("rec-build-no-slice", E, "_rec_build_error(path[1:], msg)", "_rec_build_error(path[0:], msg)", "C10.R1", "_rec_build_error")
     mb.add_text("apply-aliaser-self", E, "        child2 = apply_aliaser(child, aliaser)\n", "        child2 = apply_aliaser(error, aliaser)\n", "C10.R1", "apply_aliaser")
-    mb.add_text("deps-no-guard", "apischema/validation/dependencies.py", "                if member in rec_guard:\n                    continue\n", "", "C10.R1", "find_all_dependencies")
+    mb.add_text("deps-no-guard", "apischema/validation/dependencies.py", "            if member in rec_guard:\n                continue\n", "", "C10.R1", "find_all_dependencies")
     mb.add_text("replace-error", V, "        error = merge_errors(error, err)\n        if validator.discard:", "        error = err\n        if validator.discard:", "C10.R3", "validate")
     mb.add_text("raise-only-last", V, "            except ValidationError as err:\n                raise merge_errors(error, err)\n", "            except ValidationError as err:\n                raise merge_errors(None, err)\n", "C10.R3", "validate")
     mb.add_text("break-on-first", V, "        error = merge_errors(error, err)\n        if validator.discard:", "        error = merge_errors(error, err)\n        if validator.field is not None:\n            break\n        if validator.discard:", "C10.R4", "validate")
